@@ -70,12 +70,15 @@ def build(run):
         return out
 
     # ------------------------------------------------------------------ route 1: mixed element
-    def mixed_route(ename, els, forms, msh=None):
+    def mixed_route(ename, els, forms, msh=None, els_trial=None):
+        """els_trial: the sub-elements of the TRIAL space when it is another mixed space than the test space (a rectangular block layout)"""
         msh = msh or tri
         M = ufl.FunctionSpace(msh, E.MixedElement(list(els)))
-        v, u = TestFunction(M), TrialFunction(M)
-        sz = sizes(els, msh)
-        offs = [sum(sz[:k]) for k in range(len(sz) + 1)]
+        Mu = M if els_trial is None else ufl.FunctionSpace(msh, E.MixedElement(list(els_trial)))
+        v, u = TestFunction(M), TrialFunction(Mu)
+        SZ = [sizes(els, msh), sizes(els_trial or els, msh)]
+        OFFS = [[sum(sz_[:k]) for k in range(len(sz_) + 1)] for sz_ in SZ]
+        nbs = (len(els), len(els_trial or els))
 
         def world(i=None, j=None, sub_names=False, block=None):
             """Values of the MIXED arguments (numbers 0/1): component c belongs to sub-space k; value = atom 'v{n}s{k}'[local comp] if k is the
@@ -84,8 +87,9 @@ def build(run):
             def hook(w, e, comp, env):
                 if isinstance(e, C.Argument):
                     nbr = e.number()
-                    if e.ufl_function_space() == M:
+                    if e.ufl_function_space() == (M, Mu)[min(nbr, 1)]:
                         (c,) = comp
+                        sz, offs = SZ[min(nbr, 1)], OFFS[min(nbr, 1)]
                         k = max(kk for kk in range(len(sz)) if offs[kk] <= c)
                         sel = (i, j)[nbr] if nbr < 2 else None
                         if sel is not None and sel != k:
@@ -115,8 +119,8 @@ def build(run):
 
         for fname, mkF in forms(v, u):
             arity = len(mkF().arguments())
-            nb = len(els)
-            blocks_idx = list(itertools.product(range(nb), repeat=2)) if arity == 2 else [(k, None) for k in range(nb)]
+            nb = nbs
+            blocks_idx = list(itertools.product(range(nb[0]), range(nb[1]))) if arity == 2 else [(k, None) for k in range(nb[0])]
             for repl in (True, False):
                 for (bi, bj) in blocks_idx:
                     tag = f"mixed-element[{ename}]/{fname}/block({bi},{bj})/replace_argument={repl}"
@@ -147,11 +151,14 @@ def build(run):
                 keys = set(form_parts(Fe))
                 flat = []
                 if arity == 2:
-                    for a in range(nb):
-                        for b in range(nb):
+                    if len(allb) != nb[0] or any(len(row_) != nb[1] for row_ in allb):
+                        return violated(f"{tag}: extract_blocks(F) has the layout {len(allb)} x {[len(r_) for r_ in allb]}; the test space has {nb[0]} and the trial space {nb[1]} sub-spaces",
+                                        replay={"layout": [len(r_) for r_ in allb]}, reproduced=True, backend="structural")
+                    for a in range(nb[0]):
+                        for b in range(nb[1]):
                             flat.append(((a, b), allb[a][b]))
                 else:
-                    for a in range(nb):
+                    for a in range(nb[0]):
                         flat.append(((a, None), allb[a]))
                 for _, bf in flat:
                     keys |= set(form_parts(bf))
@@ -179,7 +186,7 @@ def build(run):
                 n = 0
                 for repl in (True, False):
                     allb = extract_blocks(F, replace_argument=repl)
-                    idx = [(a, b) for a in range(nb) for b in range(nb)] if arity == 2 else [(a, None) for a in range(nb)]
+                    idx = [(a, b) for a in range(nb[0]) for b in range(nb[1])] if arity == 2 else [(a, None) for a in range(nb[0])]
                     for a, b in idx:
                         got = allb[a][b] if arity == 2 else allb[a]
                         one = extract_blocks(F, a, b, replace_argument=repl) if arity == 2 else extract_blocks(F, a, replace_argument=repl)
@@ -215,6 +222,18 @@ def build(run):
         yield "curl u curl v + sym(grad u) : grad(v).T", lambda: (ufl.curl(uu) * ufl.curl(vu) + inner(ufl.sym(grad(uu)), grad(vu).T) + up * vp) * dx
         yield "skew / dev / tr of grad(u)", lambda: (inner(ufl.skew(grad(uu)), grad(vu)) + inner(ufl.dev(grad(uu)), ufl.outer(vu, ufl.as_vector([f, 1]))) + ufl.tr(grad(uu)) * vp) * dx
     mixed_route("P2v-P1", (P2v, P1), forms2)
+
+    # test and trial functions on DIFFERENT mixed spaces (Petrov-Galerkin): a rectangular block layout, rows from the test space, columns from the trial space
+    def forms_rect(v, u):
+        vs, us = split(v), split(u)
+        yield "all blocks", lambda: sum((k_ + 2 * l_ + 1) * us[l_] * vs[k_] for k_ in range(len(vs)) for l_ in range(len(us))) * dx
+        yield "only the last column", lambda: (us[len(us) - 1] * vs[0] + f * us[len(us) - 1] * vs[len(vs) - 1]) * dx + us[len(us) - 1] * vs[0] * ds(1)
+        yield "gradients across blocks", lambda: (inner(grad(us[0]), grad(vs[len(vs) - 1])) + us[len(us) - 1].dx(0) * vs[0]) * dx
+    def forms_rect_v(v, u):
+        vs, (u0, uv) = split(v), split(u)
+        yield "scalar and vector trial blocks", lambda: (u0 * vs[0] + div(uv) * vs[1] + dot(uv, grad(vs[2])) + 3 * u0 * vs[2]) * dx
+    mixed_route("test P1-P1 x trial P1-P1-P1", (P1, P1), forms_rect, els_trial=(P1, P1, P1))
+    mixed_route("test P1-P1-P1 x trial P1-P2v", (P1, P1, P1), forms_rect_v, els_trial=(P1, P2v))
 
     def forms3(v, u):
         (va, vb, vc), (ua, ub, uc) = split(v), split(u)
